@@ -12,15 +12,19 @@ CHECKS = {
         engine="sessim",
         category="fault_enumeration",
         technique="deterministic simulation: step-indexed interrupt injection (every evaluation step of each generated "
-                  "program is a crash point), resume, comparison with the uninterrupted run",
+                  "program is a crash point, with the interrupt arriving before the step and while the step executes), "
+                  "resume, comparison with the uninterrupted run",
         text="For every generated program the complete set of crash points (its evaluation steps) is enumerated: a fresh "
-             "simulated JSON session is interrupted by the real reader code exactly before step k and resumed; printed "
-             "output, final outcome and the executed-step trace must equal the uninterrupted run. Exhaustive over k per "
+             "simulated JSON session is interrupted by the real reader code exactly before step k - and, separately, while step "
+             "k executes (hook H2b, after the evaluator's own check) - and resumed; printed output, final outcome and the "
+             "executed-step trace (recorded where a step really starts to run) must equal the uninterrupted run. Exhaustive over k per "
              "program (sampled only for programs longer than the tier's limit, reported in the evidence), sampled over "
              "programs and over multi-interrupt plans.",
         note="Trusts the equivalence argument that the reader thread can only act between two evaluation steps (the two "
              "threads share only an atomic flag, a channel and line-atomic stdout); thread spawn and the recv loop are "
-             "sequenced by the simulator; generated programs cover a core fragment of the language.",
+             "sequenced by the simulator; generated programs cover a fragment of the language (core control flow, calls, closures, "
+             "structs/enums/methods, prelude methods written in Garden, dicts, Result, optional external-command steps); "
+             "programs with test definitions are not generated (a stop inside a test ends the request by design).",
         design_ref="DESIGN.md section 3, C08",
     ),
     "C07": dict(
@@ -30,13 +34,12 @@ CHECKS = {
                   "with interrupts injected inside and between the retries",
         text="Every runtime-error site the generator can enumerate (all built-in functions and methods declared in "
              "src/__*.gdn x wrong type per argument / arity-1 / arity+1 / wrong receiver, every binary operator x wrong "
-             "side, 38 language-level errors) x 11 placements x 3 resume histories is run in a fresh simulated session; "
+             "side, 44 language-level errors incl. unknown type hints) x 11 placements x 3 resume histories is run in a fresh simulated session; "
              "every :resume must stop again with the same message, position and frame, re-execute the same step, print "
              "nothing, and an interrupt landing inside a resume must be reported. Sampled over placements in the quick "
              "tier, complete over (site x placement) in the thorough tier.",
         note="Site list is derived from the repository's own .gdn declarations plus a hand-written list of language-level "
-             "errors; errors only reachable through other paths are not covered. Six sites are known findings (see "
-             "known_findings.txt).",
+             "errors; errors only reachable through other paths are not covered.",
         design_ref="DESIGN.md section 3, C07",
     ),
     "C09": dict(
@@ -45,8 +48,9 @@ CHECKS = {
         technique="deterministic simulation of seeded request histories against the real reader/worker handlers, with "
                   "step-indexed interrupt injection, idle interrupts, bursts and malformed requests; history oracle",
         text="Seeded histories of 3..25 requests (swarm-weighted mix of definitions, expressions, failing sites, "
-             "in-context expressions, test definitions, load, eval_up_to, malformed requests, 75 command forms issued "
-             "in any state) plus a fixed epilogue; oracle over the recorded history: no handler panics, exactly one "
+             "in-context expressions, test definitions, load, eval_up_to (also on an edited definition right after evaluating "
+             "another variant of it), malformed requests, 75 command forms issued in any state, with non-ASCII whitespace "
+             "and arguments) plus a fixed epilogue; oracle over the recorded history: no handler panics, exactly one "
              "response per request in request order with the request's id when present, exactly one well-formed ack "
              "per interrupt request. Panics are attributed to known defect families by counterfactual replay.",
         note="The stdin framing loop is not simulated; thread spawn/recv loop are sequenced by the simulator. Panics that "
@@ -73,10 +77,12 @@ CHECKS = {
         category="exploration",
         technique="deterministic simulation of incremental session histories with transparent faults (interrupt at step k "
                   "+ :resume, read-only commands, bursts); refinement against a one-request batch reference model",
-        text="Seeded error-free histories of 2..9 inputs (unique definitions, toplevel lets, assignments, loops, prints, a "
-             "final expression folding all live state) are run incrementally fault-free, incrementally with transparent "
+        text="Seeded error-free histories of 2..9 inputs (unique definitions - methods possibly before their type -, toplevel "
+             "lets, assignments, loops, prints, passing test definitions, bare toplevel blocks, comments, non-ASCII strings, a "
+             "final expression or block folding all live state) are run incrementally fault-free, incrementally with transparent "
              "faults, and as one concatenated request in a fresh session; the last value text and the concatenated output "
-             "must agree. The two incremental configurations are counted and reported separately.",
+             "must agree, and a history that succeeds incrementally must not fail as one program. The two incremental "
+             "configurations are counted and reported separately.",
         note="Without the fault configuration this is differential testing of histories; the object is a stateful server "
              "and the persistence between requests and the interleaved interrupts are what the simulator owns. Histories "
              "whose batch run is not error-free are skipped and counted.",
@@ -128,8 +134,9 @@ CHECKS = {
              "and nothing after the call site ran, no blocked read; for half of the quick runs also no world-touching "
              "syscall, process creation or read(0) in the strace log.",
         note="The list of effectful built-ins is hand-written from src/__*.gdn (a new effectful built-in must be added to "
-             "effect_calls). set_working_directory, working_directory and get_env are not in the property's list of "
-             "forbidden effects and are not flagged.",
+             "effect_calls). The built-ins the sandbox allows because they are pure (set_working_directory, working_directory, "
+             "shell_arguments) are called too, always under strace: they need not be refused but no syscall may touch the "
+             "world.",
         design_ref="DESIGN.md section 3, C24",
     ),
     "C25": dict(
@@ -137,8 +144,9 @@ CHECKS = {
         category="exploration",
         technique="bounded liveness in simulated time: the real sandboxed binary under a step monitor (hook H2), with "
                   "stalled / loaded / closed stdin and resource caps; the clock is the evaluator's tick counter",
-        text="25 families of non-terminating and resource-hungry programs with seeded sizes, as playground runs and as "
-             "sandboxed test bodies. During the run the monitor checks that ticks advance by exactly one per step and the "
+        text="28 families of non-terminating and resource-hungry programs with seeded sizes (three of them never-ending "
+             "loops whose bodies come from the general program generator: continue/break, later loops, calls, closures), as "
+             "playground runs and as sandboxed test bodies. During the run the monitor checks that ticks advance by exactly one per step and the "
              "frame depth stays within the limit; afterwards: the process exited by itself (no signal, no panic), printed "
              "a well-formed result, a non-terminating program ended in a resource-limit error or sandbox refusal, the "
              "number of executed steps is within the 100 000 budget, no read(0) is outstanding, and CPU time is within "
@@ -153,13 +161,15 @@ CHECKS = {
         technique="deterministic simulation of test schedules: seeded order / selection / file split of generated test pools "
                   "run by the real `garden test`, with in-test crashes and a Ctrl-C injected at step k",
         text="For each generated pool the verdict of every test run alone (-n) is the reference; the same pool run "
-             "together, as a seeded subset, with its files swapped, and with a Ctrl-C at step k must give each test the "
-             "same verdict and message, summary counts equal to the `Failed:` lines, exit status non-zero exactly when a "
+             "together, as a seeded subset, with its files swapped, with one name shared by tests of two files, and with a "
+             "Ctrl-C at step k must give each test the same verdict and message, summary counts equal to the `Failed:` lines, exit status non-zero exactly when a "
              "selected test did not pass; under Ctrl-C the running test is reported failed, no later test runs, and the "
-             "counts stay consistent.",
+             "counts stay consistent. For half of the pools the same comparison (each test alone, offset inside it, against all "
+             "tests, both file orders) is made under `garden sandboxed-test`, the runner with tick and stack limits.",
         note="Apart from the interrupt, the faults are deterministic properties of the generated tests; the simulator's "
              "contribution is the order/selection schedule and the crash-then-continue structure (pop_to_toplevel is the "
-             "recovery step under test). Non-terminating tests are not generated (`garden test` has no budget).",
+             "recovery step under test). Non-terminating tests are not generated (`garden test` has no budget). Under "
+             "sandboxed-test the tick budget is shared between the tests of a run: known finding.",
         design_ref="DESIGN.md section 3, C26",
     ),
     "C28": dict(
@@ -167,16 +177,17 @@ CHECKS = {
         category="exploration",
         technique="deterministic simulation of client behaviour and transport: seeded LSP message histories delivered to the "
                   "real server process over framed pipes whole / chunked / cut by EOF at an arbitrary byte / with malformed "
-                  "frames / to a slow consumer, plus a reference run of `garden check --json`",
+                  "headers / with malformed bodies / to a slow consumer, plus a reference run of `garden check --json`",
         text="Oracle over the framed output: for every well-formed request delivered completely (before EOF, before any "
-             "malformed frame) exactly one response with its id, in request order, with exactly one of result/error; none "
+             "frame with a malformed header; a frame whose body is not JSON leaves the stream in step and excuses nothing) exactly one response with its id, in request order, with exactly one of result/error; none "
              "for notifications; one publishDiagnostics per did* notification that carries the required fields; nothing "
              "else; the process never dies by signal or panic and exits with the protocol's status (0 after shutdown+exit "
              "or EOF, 1 after exit alone); the last diagnostics of up to two open documents equal `garden check --json` on "
              "the same text at the same path (ranges converted from byte columns to UTF-16 independently); chunked and "
              "slow-consumer deliveries give the same byte stream as whole delivery.",
-        note="No in-process fast path: every history is a real process. After a malformed frame only liveness and exit "
-             "status are required. Documents on which the front end reports a position outside its own line are compared "
+        note="No in-process fast path: every history is a real process. After a frame with a malformed header only "
+             "liveness and exit status are required. Documents may import files of the scratch world; the positions of "
+             "diagnostics that belong to an imported file are a known finding. Documents on which the front end reports a position outside its own line are compared "
              "on start/severity/message only (that inconsistency is C23's subject).",
         design_ref="DESIGN.md section 3, C28",
     ),
